@@ -666,6 +666,9 @@ func identityOrder(n int) []int {
 // (windows of truly parallel runs; meant for the -race worker).
 func execBatch(sc *Scenario, env *Env) *Result {
 	t0 := time.Now()
+	if sc.Params["mode"] == "unreadable" && sc.Params["child"] == "" {
+		return execUnreadableParent(sc, env)
+	}
 	res := &Result{Idx: sc.Idx, Status: "ok"}
 	root, err := materialiseBatch(sc, env, nil)
 	if err != nil {
@@ -858,6 +861,10 @@ func execBatch(sc *Scenario, env *Env) *Result {
 		allV = append(allV, execRealBinary(sc, env, root, refs, order, res)...)
 	case "inputloss":
 		allV = append(allV, execInputLoss(sc, env, root, refs, order, run, res)...)
+	case "latefile":
+		allV = append(allV, execLateFile(sc, env, root, refs, order, run, res)...)
+	case "unreadable":
+		allV = append(allV, execUnreadable(sc, env, root, refs, order, run, res)...)
 	}
 	seen := map[string]bool{}
 	for _, v := range allV {
